@@ -590,7 +590,19 @@ main(int argc, char **argv)
 	if (IS("chunk_ingest_data")) {
 		rc = replay_data();
 	} else if (IS("nni_http_chunks_parse")) {
-		rc = replay_parse(0);
+		if (st0 > CS_DONE) {
+			/* CBMC gives the enum chunk_state a signed type, so "cl_state <= CS_DONE" admits negative
+			 * states no decoder can be in (and which are > CS_DONE for the compiled code).  The same
+			 * buffer is replayed from every state the decoder can be in, each run judged by the contract. */
+			printf("note: decoder state %lld in the counterexample is not a value of enum chunk_state; replaying the same %zu bytes from every state\n",
+			    (long long) (int64_t) st0, (size_t) vp_u64("vp_arg_n", 0));
+			rc = 0;
+			for (st0 = CS_INIT; st0 <= CS_DONE && rc == 0; st0++)
+				rc = replay_parse(0);
+			st0 = CS_INIT;
+		} else {
+			rc = replay_parse(0);
+		}
 		for (int k = 1; rc == 0 && k <= 2; k++)
 			replay_parse(k);
 	} else if (IS("chunk_ingest_len") || IS("chunk_ingest_ext") || IS("chunk_ingest_newline") || IS("chunk_ingest_trailer") ||
